@@ -73,9 +73,9 @@ func vfC08(w *vfWorld) {
 		cfg.Extra = append(cfg.Extra, "--authenticated-emails-file="+emailsFile)
 	}
 	if t.Prob("c08.groups", 400) {
-		cs.Groups = [][]string{{"dev"}, {"ops", "sales"}, {"Dev"}, {"Admins, Platform"}, {"cn=admins,ou=groups,dc=corp", "dev"}}[t.Choice("c08.gset", 5)]
+		cs.Groups = [][]string{{"dev"}, {"ops", "sales"}, {"Dev"}, {"Admins, Platform"}, {"cn=admins,ou=groups,dc=corp", "dev"}, {""}, {" ", ""}}[t.Choice("c08.gset", 7)]
 		for _, g := range cs.Groups {
-			if !strings.Contains(g, ",") {
+			if !strings.Contains(g, ",") && strings.TrimSpace(g) != "" {
 				cfg.Extra = append(cfg.Extra, "--allowed-group="+g)
 			}
 		}
@@ -84,7 +84,8 @@ func vfC08(w *vfWorld) {
 	// configuration file, i.e. they are set on the loaded options. The mutator follows cs.Groups across restarts.
 	cfg.Mut = func(o *options.Options) {
 		for _, g := range cs.Groups {
-			if strings.Contains(g, ",") {
+			// (a list holding only blank entries is still a configured list: nobody is a member of the group "")
+			if strings.Contains(g, ",") || strings.TrimSpace(g) == "" {
 				o.Providers[0].AllowedGroups = append([]string(nil), cs.Groups...)
 			}
 		}
